@@ -375,3 +375,264 @@ def stream_buffer_inductive(b0: int, n0: int, flag: bool, op: int, sz: int) -> b
         return done(ok, b0=b0, n0=n0, flag=flag, op=op, sz=sz)
     finally:
         _uninstall_lenbuf()
+
+
+# ------------------------------------------------------------------ the real event classes of both workers
+
+
+def _run_real_events(flavour: str, script):
+    """Run `script(buf, spawn, settle)` with a StreamBuffer built on the worker's real EventWrapper."""
+    out = {}
+    if flavour == "asyncio":
+        import asyncio
+
+        import hypercorn.asyncio.worker_context as awc
+        from vf.stubs.vloop import VLoop
+
+        loop = VLoop()
+        tasks = []
+
+        async def main():
+            buf = StreamBuffer(awc.EventWrapper)
+
+            def spawn(coro):
+                t = loop.create_task(coro)
+                tasks.append(t)
+                return t
+
+            async def settle():
+                for _ in range(20):
+                    await asyncio.sleep(0)
+
+            out["r"] = await script(buf, spawn, settle, lambda t: t.done())
+            for t in tasks:
+                t.cancel()
+
+        mt = loop.create_task(main())
+        loop.run_until(10.0)
+        if mt.done() and mt.exception() is not None:
+            raise mt.exception()
+    else:
+        import trio
+
+        import hypercorn.trio.worker_context as twc
+        from vf.stubs.tsess import install_trio_determinism
+
+        install_trio_determinism()
+
+        async def main():
+            buf = StreamBuffer(twc.EventWrapper)
+            done_flags = {}
+            async with trio.open_nursery() as nursery:
+
+                def spawn(coro):
+                    key = len(done_flags)
+                    done_flags[key] = False
+
+                    async def run():
+                        await coro
+                        done_flags[key] = True
+
+                    nursery.start_soon(run)
+                    return key
+
+                async def settle():
+                    await trio.testing.wait_all_tasks_blocked()
+
+                out["r"] = await script(buf, spawn, settle, lambda k: done_flags[k])
+                nursery.cancel_scope.cancel()
+
+        import trio.testing
+
+        trio.run(main, clock=trio.testing.MockClock())
+    return out["r"]
+
+
+@harness(
+    "C08",
+    dom={"flavour": (0, 1), "big": (0, 2), "p0": (0, 3), "p1": (0, 3), "p2": (3, 3), "end": (0, 2)},
+    thorough_dom={"p2": (0, 3)},
+    split={"flavour": "each", "big": "each", "p0": "each"},
+    witnesses=[{"flavour": 0, "big": 1, "p0": 1, "p1": 2, "p2": 3, "end": 0}, {"flavour": 1, "big": 2, "p0": 0, "p1": 1, "p2": 3, "end": 1}],
+    budget=200,
+    per_path=120,
+    bounds="StreamBuffer on the real asyncio / trio EventWrapper: one push of {40000, 50000, 100000} bytes that blocks, then two pops from {0, 1000, 16384, everything} and a third that takes everything (thorough: three free pops), then {pop the rest, close, nothing}: the blocked push (and a final drain) must be released exactly when the rule says",
+    encodes=["hypercorn/protocol/h2.py::StreamBuffer.push", "hypercorn/protocol/h2.py::StreamBuffer.pop", "hypercorn/protocol/h2.py::StreamBuffer.close", "hypercorn/asyncio/worker_context.py::EventWrapper.clear",
+             "hypercorn/trio/worker_context.py::EventWrapper.clear", "hypercorn/trio/worker_context.py::EventWrapper.wait"],
+    stubs=["real asyncio.Event on the virtual loop / real trio.Event under trio.run; real bytearray contents"],
+)
+def stream_buffer_real_events(flavour: int, big: int, p0: int, p1: int, p2: int, end: int) -> bool:
+    """
+    pre: DOM(stream_buffer_real_events, flavour=flavour, big=big, p0=p0, p1=p1, p2=p2, end=end)
+    post: _
+    """
+    enter()
+    flavour = "asyncio" if conc(flavour, 0, 1) == 0 else "trio"
+    size = [40000, 50000, 100000][conc(big, 0, 2)]
+    pops = [[0, 1000, 16384, 10**9][conc(p, 0, 3)] for p in (p0, p1, p2)]
+    end = conc(end, 0, 2)
+    from vf.rt import NoTracing, is_tracing
+
+    async def script(buf, spawn, settle, is_done):
+        why = ""
+        pusher = spawn(buf.push(b"x" * size))
+        await settle()
+        if is_done(pusher):
+            return "a push that takes the buffer over the high-water mark did not block"
+        released = False
+        for m in pops:
+            await buf.pop(m)
+            await settle()
+            remaining = len(buf.buffer)
+            if is_done(pusher):
+                released = True
+            if remaining < BUFFER_HIGH_WATER and not released:
+                return f"writer still blocked although only {remaining} bytes remain buffered (below the mark)"
+            if m == 0 and remaining >= BUFFER_HIGH_WATER and released and not why:
+                why = "an empty pop released the writer"
+        if why:
+            return why
+        drainer = spawn(buf.drain())
+        await settle()
+        if end == 0:
+            await buf.pop(10**9)
+        elif end == 1:
+            await buf.close()
+        await settle()
+        if end in (0, 1):
+            if not is_done(pusher):
+                return "writer not released after the buffer was emptied / closed"
+            if not is_done(drainer):
+                return "drain() not released after the buffer was emptied / closed"
+        return ""
+
+    if is_tracing():
+        # both event loops / trio.run are driven with concrete values only
+        pass
+    why = _run_real_events(flavour, script)
+    return done(why == "", flavour=flavour, size=size, pops=pops, end=["pop the rest", "close", "nothing"][end], why=why)
+
+
+# ------------------------------------------------------------------ backpressure sessions on the real workers (tier C)
+
+from vf.rt import MODE as _MODE  # noqa: E402
+
+MODE_QUICK = _MODE["tier"] != "thorough"
+ENDINGS = ["WINDOW_UPDATE (stream and connection)", "RST_STREAM", "client EOF", "connection reset", "nothing (the client stays silent)", "WINDOW_UPDATE on the connection only"]
+
+
+@harness(
+    "C08",
+    dom={"flavour": (0, 1), "wi": (0, 2), "ci": (0, 2), "ending": (0, 5), "sibling": "bool"},
+    split={"flavour": "each", "ending": "each"},
+    witnesses=[{"flavour": 0, "wi": 0, "ci": 1, "ending": 0, "sibling": True}, {"flavour": 1, "wi": 1, "ci": 2, "ending": 1, "sibling": False}],
+    budget={"quick": 200, "thorough": 900},
+    per_path=240,
+    bounds="HTTP/2 response of about 240 kB (thorough 600 kB) written in chunks of {8 kB, 48 kB, 100 kB} to a client whose stream window is {0, 100, 65535}, optionally next to a small sibling stream; then one of 6 endings (window re-opened on both levels / on the connection only, RST_STREAM, EOF, reset, silence); both workers",
+    encodes=["hypercorn/protocol/h2.py::StreamBuffer.push", "hypercorn/protocol/h2.py::H2Protocol._send_data", "hypercorn/protocol/h2.py::H2Protocol._handle_events", "hypercorn/protocol/h2.py::H2Protocol.handle",
+             "hypercorn/asyncio/tcp_server.py::TCPServer.protocol_send", "hypercorn/trio/tcp_server.py::TCPServer.protocol_send", "hypercorn/trio/worker_context.py::EventWrapper.clear"],
+    stubs=["tier C runtimes (virtual asyncio loop / trio MockClock)", "client frames are precomputed with the h2 client library (it needs no server input to grant window)", "the session body runs un-traced (concrete execution per solver-chosen choice vector): byte-level symbolic models of 100 kB buffers are out of reach"],
+)
+def h2_backpressure_session(flavour: int, wi: int, ci: int, ending: int, sibling: bool) -> bool:
+    """
+    pre: DOM(h2_backpressure_session, flavour=flavour, wi=wi, ci=ci, ending=ending, sibling=sibling)
+    post: _
+    """
+    enter()
+    from vf.session import all_out, run_session
+    from vf.stubs.b import make_config
+    from vf.stubs.clients import H2Client, H2FrameObserver
+
+    flavour = "asyncio" if conc(flavour, 0, 1) == 0 else "trio"
+    window = [0, 100, 65535][conc(wi, 0, 2)]
+    chunk = [8192, 49152, 100000][conc(ci, 0, 2)]
+    ending = conc(ending, 0, 5)
+    sibling = True if sibling else False
+    TOTAL = 240000 if MODE_QUICK else 600000
+    n_chunks = (TOTAL + chunk - 1) // chunk
+    TOTAL = n_chunks * chunk
+
+    def factory(env):
+        log = {"accepted": 0, "returned": [], "done": False, "sib_done": False, "disconnect": None}
+
+        async def app(scope, receive, send, sync_spawn=None, call_soon=None):
+            await receive()
+            if scope["raw_path"] == b"/sib":
+                await send({"type": "http.response.start", "status": 200, "headers": []})
+                await send({"type": "http.response.body", "body": b"sibling", "more_body": False})
+                log["sib_done"] = True
+                return
+            await send({"type": "http.response.start", "status": 200, "headers": []})
+            for i in range(n_chunks):
+                await send({"type": "http.response.body", "body": b"d" * chunk, "more_body": True})
+                log["accepted"] += chunk
+                log["returned"].append(env.now())
+            await send({"type": "http.response.body", "body": b"", "more_body": False})
+            log["done"] = env.now()
+
+        factory.log = log
+        return app
+
+    c = H2Client(initial_window=window)
+    c.request(1, b"GET", b"/big", end_stream=True)
+    acts = [("feed", c.take()), ("sleep", 1.0)]
+    marks = {}
+    acts.append(("call", lambda env: marks.__setitem__("stalled", dict(factory.log, t=env.now()))))
+    if sibling:
+        c.request(3, b"GET", b"/sib", end_stream=True)
+        c.window_update(3, 1000)  # the sibling has window of its own ...
+        if window == 65535:
+            c.window_update(0, 7)  # ... and, where the big stream has used up the connection window, exactly its 7 bytes of connection credit
+        acts += [("feed", c.take()), ("sleep", 0.5)]
+    if ending == 0:
+        c.window_update(1, 2000000)
+        c.window_update(0, 2000000)
+        acts.append(("feed", c.take()))
+    elif ending == 1:
+        c.reset(1)
+        acts.append(("feed", c.take()))
+    elif ending == 2:
+        acts.append(("eof",))
+    elif ending == 3:
+        acts.append(("reset",))
+    elif ending == 5:
+        c.window_update(0, 2000000)
+        acts.append(("feed", c.take()))
+    acts.append(("sleep", 2.0))
+    # Every choice is pinned; the session itself (hundreds of kB through StreamBuffer) is executed un-traced:
+    # CrossHair's byte-level model of bytearray makes one traced path cost minutes (and the trio run does not
+    # terminate under the tracer), so here the solver only enumerates the choice vector.
+    from vf.rt import NoTracing
+
+    with NoTracing():
+        obs = run_session(flavour, factory, make_config(keep_alive_timeout=50), acts, alpn="h2")
+    log = factory.log
+    o = H2FrameObserver()
+    o.feed(all_out(obs))
+    written = len(o.streams[1].data) if 1 in o.streams else 0
+    stalled = marks.get("stalled") or {"accepted": 0}
+    why = ""
+    bound = 32768 + 2 * chunk
+    # the windows: stream `window`, connection 65535
+    deliverable = min(window, 65535)
+    if obs["handler_error"] is not None:
+        why = "connection handler raised %r" % (obs["handler_error"],)
+    elif o.errors:
+        why = f"server output does not parse: {o.errors!r}"
+    elif stalled["accepted"] - min(written, deliverable) > bound:
+        why = f"while the client accepted nothing more the server held {stalled['accepted'] - min(written, deliverable)} bytes for the stream (bound {bound})"
+    elif sibling and not log["sib_done"]:
+        why = "the stalled stream blocked its sibling"
+    elif ending in (0, 1, 2, 3) and not log["done"] and not (ending in (1, 2, 3) and log["accepted"] < TOTAL and _app_ended(obs, log)):
+        why = f"pressure ended by '{ENDINGS[ending]}' but the application is still blocked in send() after accepting {log['accepted']} bytes"
+    elif ending == 0 and (written != TOTAL or o.streams[1].ended != 1):
+        why = f"window re-opened but only {written} of {TOTAL} bytes delivered (END_STREAM x{o.streams[1].ended})"
+    elif ending == 5 and window == 65535 and written < 65535:
+        why = f"connection window re-opened but the stream did not use its own window ({written} bytes delivered)"
+    elif ending == 4 and log["done"]:
+        why = "all sends returned although the client never accepted the data"
+    return done(why == "", flavour=flavour, window=window, chunk=chunk, ending=ENDINGS[ending], sibling=sibling, why=why)
+
+
+def _app_ended(obs, log) -> bool:
+    return False
